@@ -95,8 +95,27 @@ def _cls(src, name):
     return T._find_class(T._parse(src), name)
 
 
+# the local variables of the functions that are translated, in order of first binding, under the names the translators
+# below expect: the functions are alpha-renamed to these before anything else, so renaming a local in the source is harmless
+LOCALS = {
+    ("Simulator", "run_until"): ["event"], ("ABMSimulator", "run_until"): ["event"], ("Simulator", "run_next_event"): ["event"],
+    ("Simulator", "schedule_event_absolute"): ["event"], ("Simulator", "schedule_event_relative"): ["event"],
+    ("Simulator", "run_for"): ["end_time"],
+    ("SimulationEvent", "execute"): ["fn"], ("EventList", "pop_event"): ["event"], ("EventList", "peak_ahead"): ["peek", "event"],
+}
+
+
 def _fn(src, cls, name):
-    return T._find_func(_cls(src, cls), name)
+    import copy
+
+    fn = copy.deepcopy(T._find_func(_cls(src, cls), name))
+    want = LOCALS.get((cls, name))
+    if want is not None:
+        have = pyexpr.local_names(fn)
+        if len(have) != len(want):
+            raise T.Broken(f"{cls}.{name} binds the locals {have}, expected {len(want)} of them")
+        fn = ast.fix_missing_locations(pyexpr._Renamer(dict(zip(have, want))).visit(fn))
+    return fn
 
 
 def _params(fn):
@@ -305,27 +324,29 @@ class _Norm(ast.NodeTransformer):
 
 
 def _skel(fn, abstract):
-    body = [s for s in fn.body if not (isinstance(s, ast.Expr) and isinstance(s.value, ast.Constant) and isinstance(s.value.value, str))]
-    out = []
-    for s in body:
-        s = _Norm(abstract).visit(ast.fix_missing_locations(s))
-        out.append(ast.unparse(s))
-    return "\n".join(out)
+    """the statements of fn modulo the names of its local variables (pyexpr.normalized_statements: v0, v1, ... in order of
+    first binding), docstrings, comments, formatting, the texts of exception messages, and with the separately
+    translated `if` tests abstracted to COND"""
+    import copy
+
+    fn = copy.deepcopy(fn)
+    fn.body = [_Norm(abstract).visit(st) for st in fn.body]
+    return "\n".join(pyexpr.normalized_statements(ast.fix_missing_locations(fn)))
 
 
 RUN_UNTIL = """if self.model is None:
     raise Exception()
 while True:
     try:
-        event = self.event_list.pop_event()
+        v0 = self.event_list.pop_event()
     except IndexError:
         self.time = end_time
         break
     if COND:
-        self._execute_event(event)
+        self._execute_event(v0)
     else:
         self.time = end_time
-        self._schedule_event(event)
+        self._schedule_event(v0)
         break"""
 
 SKELETONS = [
@@ -335,11 +356,11 @@ SKELETONS = [
     (SIM, "Simulator", "run_next_event", (), """if self.model is None:
     raise Exception()
 try:
-    event = self.event_list.pop_event()
+    v0 = self.event_list.pop_event()
 except IndexError:
     return
 else:
-    self._execute_event(event)"""),
+    self._execute_event(v0)"""),
     (SIM, "Simulator", "_execute_event", (), "self.time = event.time\nevent.execute()"),
     (SIM, "ABMSimulator", "_execute_event", "all-ifs", """self.time = event.time
 if COND:
@@ -367,19 +388,19 @@ self.model = model"""),
     (EV, "EventList", "add_event", (), "heappush(self._events, event)"),
     (EV, "EventList", "remove", (), "event.cancel()"),
     (EV, "EventList", "pop_event", "all-ifs", """while self._events:
-    event = heappop(self._events)
+    v0 = heappop(self._events)
     if COND:
-        return event
+        return v0
 raise IndexError()"""),
     (EV, "EventList", "peak_ahead", "all-ifs", """if COND:
     raise IndexError()
-peek: list[SimulationEvent] = []
-for event in sorted(self._events):
+v0: list[SimulationEvent] = []
+for v1 in sorted(self._events):
     if COND:
-        peek.append(event)
+        v0.append(v1)
     if COND:
-        return peek
-return peek"""),
+        return v0
+return v0"""),
     (EV, "SimulationEvent", "cancel", (), "self._canceled = True\nself.fn = None\nself.function_args = []\nself.function_kwargs = {}"),
 ]
 
